@@ -3,8 +3,8 @@ from .. import lib, runner
 from ..mm import mask_names
 
 PROP = "C18"
-THEOREMS = ["Names.conflictLoop_iff_prefix", "MemMap.related_iff", "MemMap.str_ne_int", "MemMap.available_iff", "MemMap.addResource_refuses_conflict", "MemMap.addResource_accepts_legal", "MemMap.addResource_ninv", "MemMap.addWindow_ninv", "MemMap.addWindow_refuses_conflict", "MemMap.names_prefix_free"]
-IMPORTS = ["SocVerif.Props.C18"]
+THEOREMS = ["Names.conflictLoop_iff_prefix", "MemMap.related_iff", "MemMap.str_ne_int", "MemMap.available_iff", "MemMap.addResource_refuses_conflict", "MemMap.addResource_accepts_legal", "MemMap.addResource_ninv", "MemMap.addWindow_ninv", "MemMap.addWindow_refuses_conflict", "MemMap.names_prefix_free", "MemMap.paths_distinct_of_namesOk", "MemMap.reachable_namesOk", "MemMap.paths_distinct"]
+IMPORTS = ["SocVerif.Props.C18", "SocVerif.Props.C18P"]
 
 
 def nontrivial(r):
@@ -18,7 +18,8 @@ def sample(r):
 
 def run(rep, tier):
     lib.proof_gate(rep, PROP, THEOREMS, IMPORTS)
-    n = 500 if tier == "quick" else 50000
+    n = 500 if tier == "quick" else 200000
+    n = rep.scale(n)
     agg = runner.correspondence(rep, prop=PROP, mod_name="harness.mm", driver_kind="mmap", ncases=n,
                                 extra=("names",), nontrivial=nontrivial, oracle_props={"C18"},
                                 sample_fmt=sample, mask_model=mask_names)
